@@ -62,3 +62,21 @@ Definition api_parse_event (s : pstate) (bs : list byte) := parse_event s bs.
 Definition api_parse_metadata (s : pstate) (bs : list byte) := parse_metadata s bs.
 Definition api_rd_exact (n : nat) (bs : list byte) := rd_exact n bs.
 Definition api_state_version (s : pstate) : version := ver s.
+
+From Peppi Require Import Model.View.
+Definition api_frame_view (v : version) (fr : frames) (i : nat) := frame_view v fr i.
+Definition api_arrow_frame (v : version) (fr : frames) := arrow_frame v fr.
+
+From Peppi Require Import Model.Slpp.
+(* the archive bytes the model predicts for a game, given the opaque JSON / Arrow blobs of the real run *)
+Definition api_slpp_archive (g : game) (hash : option (list byte))
+           (meta_blob start_blob end_blob frames_blob : list byte) : outcome (list byte) :=
+  es <- slpp_write peppi_json (fun _ => meta_blob) (fun _ => start_blob) (fun _ => end_blob)
+                   (fun _ _ _ _ => Ok frames_blob) CNone {| sg_game := g; sg_hash := hash |} ;;
+  Ok (tar_bytes es).
+Definition api_entry_names (g : game) : list (list byte) :=
+  match slpp_write (fun _ _ _ => []) (fun _ => []) (fun _ => []) (fun _ => []) (fun _ _ _ _ => Ok []) CNone
+                   {| sg_game := g; sg_hash := None |} with
+  | Ok es => map fst es
+  | _ => []
+  end.
